@@ -49,12 +49,13 @@ def props_of_fn(unit_text, qual):
     return res
 
 
-def fn_disturbed(b, f):
-    """does the function overlap an item section in which ghost lines sat next to changed code?"""
+def fn_disturbed(b, f, key='disturbed'):
+    """does the function overlap an item section in which ghost lines sat next to changed code?
+    key='structural': next to code that was added, removed or re-flowed (not merely edited in place)"""
     if f is None:
         return False
     for it in b.items:
-        if it.get('disturbed') and it['start'] <= f.end and f.start <= it.get('end', 0):
+        if it.get(key) and it['start'] <= f.end and f.start <= it.get('end', 0):
             return True
     return False
 
@@ -296,7 +297,9 @@ def main(argv):
                     break
             if hit:
                 known_hits.append((hit, r['tag'], fd))
-            elif r.get('hints_dropped') and fn_disturbed(b, fobj):
+            elif (r.get('hints_dropped') and fn_disturbed(b, fobj)) or fn_disturbed(b, fobj, 'structural'):
+                # proof hints in this function are no longer reliably placed (lines added / removed / re-flowed next to
+                # them, or hints dropped): a failed obligation counts only if the replay finds a failing input
                 weak_violations.append((r['tag'], fd))
             else:
                 violations.append((r['tag'], fd))
@@ -366,8 +369,8 @@ def main(argv):
             forced_replay = rp
         else:
             for u, fd in weak_violations:
-                trouble.append('unit %s fn %s: %s - but the proof hints next to edited code were dropped (lost anchors) and the bounded replay '
-                               'found no failing input: undecided (see %s)' % (u, fd.fn, fd.message, rp))
+                trouble.append('unit %s fn %s: %s - but proof hints sit next to code that was added, removed or re-flowed (their placement is '
+                               'no longer certain) and the bounded replay found no failing input: undecided (see %s)' % (u, fd.fn, fd.message, rp))
     elif weak_violations:
         violations += weak_violations
 
@@ -409,7 +412,8 @@ def main(argv):
             'verus': {'units': [{'unit': r['tag'], 'verified': r['verified'], 'errors': r['errors'], 'cache': r['res'].get('cache'),
                                  'wall_s': round(r['res']['wall_s'], 2),
                                  'overlay_drift_lines': sum(i['drift'] for i in r['build'].items),
-                                 'ghost_lines_disturbed': sum(i['disturbed'] for i in r['build'].items)} for r in results],
+                                 'ghost_lines_disturbed': sum(i['disturbed'] for i in r['build'].items),
+                                 'ghost_lines_next_to_structural_change': sum(i.get('structural', 0) for i in r['build'].items)} for r in results],
                       'smt_seconds_for_property_functions': round(smt_total, 2), 'backend': 'Verus %s / Z3' % vx._verus_version()},
             'vacuity': {'functions_checked_with_ensures_false': vac_checked, 'exempt_unsatisfiable_by_design': vac_exempt},
             'extraction': {'rewrites': sorted(set(rewrites_notes)), 'dropped': sorted(set(dropped))},
